@@ -282,14 +282,22 @@ Definition get_cache (prog : list stmt) (g : getcache_cfg) (jo : jobopts) (ans :
     Job.get_raw_options layers  task defaults < parent's exported options < expr options < job options,
     and _evaluate_apply sets job option cache_scope=CSE when the run has cache=False, and
     options_then forces cache_scope=NONE when provenance is off. *)
+(** when _evaluate_apply installs the cache=False override: always, or only for a task whose
+    *definition* has backend scope (the call's own options are not looked at by such a guard) *)
+Inductive nocache_guard := GuardNone | GuardDefinedBackend.
+
 Record subrun_cfg := mkSC {
   sc_default_scope : cache_scope;          (* @scheduler_task(cache_scope=...) of subrun *)
   sc_default_valid : check_valid;          (* @scheduler_task(check_valid=...) of subrun *)
   sc_allowed : list cache_result;          (* the literal set in all_options *)
   sc_nocache_scope : cache_scope;          (* job option when not scheduler._use_cache *)
-  sc_noprov_scope : cache_scope            (* eval option when not recording provenance *)
+  sc_noprov_scope : cache_scope;           (* eval option when not recording provenance *)
+  sc_nocache_guard : nocache_guard;        (* the condition around the cache=False override *)
+  sc_task_defined_scope : cache_scope      (* @task(cache_scope=...) of _subrun_root_task itself *)
 }.
-Definition shipped_subrun_opts : subrun_cfg := mkSC ScBACKEND CvSHALLOW [CSE; ULTIMATE] ScCSE ScNONE.
+Definition shipped_subrun_opts : subrun_cfg := mkSC ScBACKEND CvSHALLOW [CSE; ULTIMATE] ScCSE ScNONE GuardNone ScCSE.
+(** the variant with the guard on the definition-time scope (not what the code does) *)
+Definition guarded_subrun_opts : subrun_cfg := mkSC ScBACKEND CvSHALLOW [CSE; ULTIMATE] ScCSE ScNONE GuardDefinedBackend ScCSE.
 
 Record subrun_call := mkCall {
   c_scope : option cache_scope;            (* subrun.options(cache_scope=...) *)
@@ -300,7 +308,11 @@ Record subrun_call := mkCall {
 
 Definition root_task_jobopts (c : subrun_cfg) (k : subrun_call) : jobopts :=
   let scope0 := match c_scope k with Some s => s | None => sc_default_scope c end in
-  let scope1 := if c_use_cache k then scope0 else sc_nocache_scope c in
+  let overridden := match sc_nocache_guard c with
+                    | GuardNone => true
+                    | GuardDefinedBackend => sc_eqb (sc_task_defined_scope c) ScBACKEND
+                    end in
+  let scope1 := if c_use_cache k then scope0 else if overridden then sc_nocache_scope c else scope0 in
   let scope2 := if c_prov k then scope1 else sc_noprov_scope c in
   mkJO (Some (match c_valid k with Some v => v | None => sc_default_valid c end))
        (Some scope2) (Some (set_of (sc_allowed c))) false false.
@@ -588,6 +600,23 @@ Definition shipped_config_args : list rtarg := [AConfig; AConfigDir; ALoadModule
 (** the key of a call with argument values [a] *)
 Definition root_key (config_args : list rtarg) (a : rtarg -> Z) : list Z :=
   map a (filter (fun x => negb (existsb (rtarg_eqb x) config_args)) all_rtargs).
+
+(* ====================================================================== *)
+(** * Part 6: when the top-level expression is its own root job            *)
+(* ====================================================================== *)
+(** needs_root_task: a task call may be the root job of run / extend_run only if everything the
+    scheduler evaluates before the job starts is concrete; otherwise it is wrapped in redun.root_task,
+    so that exactly one job is created directly under the (stand-in) parent *)
+Inductive concrete_part := CArgs | CKwargs | CDefaults | CTaskOptions | CExprOptions.
+Definition all_parts : list concrete_part := [CArgs; CKwargs; CDefaults; CTaskOptions; CExprOptions].
+Definition shipped_root_parts : list concrete_part := [CArgs; CKwargs; CDefaults; CTaskOptions; CExprOptions].
+Definition needs_root (parts : list concrete_part) (is_task_call is_scheduler_call : bool)
+           (lazy : concrete_part -> bool) : bool :=
+  negb is_task_call || is_scheduler_call || existsb lazy parts.
+(** jobs created directly under the parent of the top-level expression when it is NOT wrapped: the call's own
+    job plus one per lazy part (its expressions are evaluated with the same parent job) *)
+Definition top_jobs_unwrapped (lazy : concrete_part -> bool) : nat :=
+  S (length (filter lazy all_parts)).
 
 (* ====================================================================== *)
 (** * Decidable equalities used by the correspondence cases (harness)      *)
